@@ -23,9 +23,14 @@ type Execution struct {
 }
 
 func NewExecution(query promql.Query, pool *model.VectorPool, opts *query.Options) *Execution {
+	// The remote engine has already applied the lookback delta. Samples of the remote
+	// result are valid only at their own step: re-reading them with a lookback would
+	// carry a value past the step at which the remote series ended or went stale.
+	remoteOpts := *opts
+	remoteOpts.LookbackDelta = 0
 	return &Execution{
 		query:          query,
-		vectorSelector: scan.NewVectorSelector(pool, newStorageFromQuery(query), opts, 0, 0, 1),
+		vectorSelector: scan.NewVectorSelector(pool, newStorageFromQuery(query), &remoteOpts, 0, 0, 1),
 	}
 }
 
